@@ -186,7 +186,7 @@ theorem FI_gReply (N : Nat) (links : List (Nat × List Tgt)) (hwf : TreeWF N lin
     refine { glinks := h.glinks, nodesLen := h.nodesLen, rel := h.rel, dflt := h.dflt, reqsOK := h.reqsOK,
              curOK := h.curOK, inboxOK := h.inboxOK, ownNode := h.ownNode, sinkOK := h.sinkOK,
              debtOK := ?_, wkN := ?_, wkS := ?_, respOK := ?_, nofeed := ?_, logBound := h.logBound,
-             rootsB := h.rootsB, wq0 := ?_ }
+             rootsB := h.rootsB, wq0 := ?_, logOrd := h.logOrd }
     · intro rk x hx
       simp only [updD] at hx
       split at hx
@@ -229,7 +229,7 @@ theorem FI_gReply (N : Nat) (links : List (Nat × List Tgt)) (hwf : TreeWF N lin
     refine { glinks := h.glinks, nodesLen := h.nodesLen, rel := h.rel, dflt := h.dflt, reqsOK := h.reqsOK,
              curOK := h.curOK, inboxOK := h.inboxOK, ownNode := h.ownNode, sinkOK := h.sinkOK,
              debtOK := ?_, wkN := ?_, wkS := ?_, respOK := h.respOK, nofeed := ?_, logBound := h.logBound,
-             rootsB := h.rootsB, wq0 := ?_ }
+             rootsB := h.rootsB, wq0 := ?_, logOrd := h.logOrd }
     · intro rk x hx
       simp only [updD] at hx
       split at hx
